@@ -109,7 +109,7 @@ pub fn all() -> Vec<PropDef> {
     v.push(PropDef {
         miri: None,
         id: "C07", level: "exploration", driver: "D2 deterministic executor + simulated transport + open-loop peer + scripted handlers",
-        scens: vec![s("conn", d2::c07, 90_000, 3_000_000), s("reuse_after_abort", d2::c11, 30_000, 1_000_000)],
+        scens: vec![s("conn", d2::c07, 90_000, 3_000_000), s("reuse_after_abort", d2::c11, 30_000, 1_000_000), s("duplex_handlers", d2::c10, 30_000, 1_000_000)],
         rule: "each run = one connection task Token::run over the simulated transport: 1..4 requests from a compliant open-loop client (request i+1 released after EndRequest i is in the log), noise records, a chooser-driven handler (read all/part/nothing via read or fill_buf, writes, every ExitStatus), reads of 1..n bytes or Pending and writes accepting 1..n bytes or Pending at every call, spurious polls; the decoded transport log and the handler log are compared with M-conn; one run in 16 is a long-lived connection of 5..12 requests; reuse_after_abort: the C11 connection scenario (an AbortRequest is not an I/O error: with keep-conn the next request must be served); distinct = distinct (skeleton, digest); non-trivial = at least one non-default scheduling alternative or transport fault (short read/write, Pending) fired",
         assumptions: vec!["client keeps one request outstanding", "handlers drop their writers before returning and become writeable before writing (documented requirements)"],
         real: REAL_ASYNC.to_vec(), stub: STUB_ASYNC.to_vec(),
@@ -125,7 +125,7 @@ pub fn all() -> Vec<PropDef> {
     v.push(PropDef {
         miri: None,
         id: "C09", level: "exploration", driver: "D2 deterministic executor + simulated transport; handler explores the read interfaces",
-        scens: vec![s("readers", d2::c09, 90_000, 3_000_000)],
+        scens: vec![s("readers", d2::c09, 90_000, 3_000_000), s("duplex_handlers", d2::c10, 30_000, 1_000_000)],
         rule: "each run = one connection whose handler issues a chooser-driven sequence of poll_read(len 0..70000) / poll_fill_buf+consume(k) / set_stream / writeable() calls, samples is_writeable() after every poll and probes output_stream()/set_stream() rejections under catch_unwind, while the transport returns 1..n bytes or Pending and management records arrive mid-stream with the write side accepting 1..n bytes or Pending; bytes received per stream compared with M-stream; distinct = distinct (skeleton, digest)",
         assumptions: vec!["compliant client (streams in role order)"],
         real: REAL_ASYNC.to_vec(), stub: STUB_ASYNC.to_vec(),
